@@ -1249,6 +1249,12 @@ def main():
         ('assign w 6\nprintf "{:>{w}}|" 5\n', '     5|\n', 'printf-nested-field'),
         ('assign x 5\nprintf "{x.real}|{x.imag}"\n', '5|0\n', 'printf-compound-field-name'),
         ('assign s "abc"\nprintf "{s[0]}{0.real}" 7\n', 'a7\n', 'printf-compound-field-name'),
+        # the text of a string value: a quotation mark written as \" at its start, middle and end
+        ('println "\\"hi\\""\n', '"hi"\n', 'stdout-bytes:quoted-text'),
+        ('println "say \\"hi\\" now"\n', 'say "hi" now\n', 'stdout-bytes:quoted-text'),
+        ('printf "name=\\"{}\\"" 5\n', 'name="5"\n', 'stdout-bytes:quoted-text'),
+        ('assign s "\\""\nprintln s\nprintln "\\"\\""\n', '"\n""\n', 'stdout-bytes:quoted-text'),
+        ('assign who "world"\nprintf "name=\\"{who}\\""\n', 'name="world"\n', 'stdout-bytes:quoted-text'),
     ]
     for src, want_text, sig in manual:
         got, notes = real.run_jobs([src])
